@@ -164,6 +164,17 @@ pub fn check_sim(prop: &str, tier: &str) -> i32 {
         machinery.extend(stats.machinery.iter().cloned());
         crate::journal::fill_report(&mut report, prop, found, &stats);
     }
+    // glue conformance (DESIGN §4.8): real stack over loopback TCP vs. the simulation
+    if !quick && prop == "C09" {
+        let rc = std::panic::catch_unwind(crate::glue::run).unwrap_or(2);
+        report.extra.insert(
+            "glue_conformance".into(),
+            json!(if rc == 0 { "3 cases: real server_start + run_worker over loopback TCP and the simulation agree on task outcomes and final core shape" } else { "FAILED" }),
+        );
+        if rc != 0 {
+            machinery.push("glue conformance run disagrees (or loopback TCP unavailable)".into());
+        }
+    }
     let memo = tako::verif::sched_memo_stats();
     if memo.audit_failures > 0 {
         machinery.push(format!("scheduling memo audit failed {} times", memo.audit_failures));
